@@ -2,15 +2,15 @@ INIT FInit
 NEXT FNext
 CONSTANTS
   Keys <- SimKeys
-  HandlerIds = {1, 2, 3}
+  HandlerIds = {1, 2}
   CTypes <- SimCTypes
   Defaults <- SimDefaults
   NoRaiseCalls <- MCNoRaise
   MaxObjs = 3
-  MaxUpdate = 2
+  MaxUpdate = 1
   ClearOnSet = TRUE
   ClearOnDelete = TRUE
-  Depth = 8
+  Depth = 10
 INVARIANT NeverStale
 INVARIANT MemoCoherent
 INVARIANT EmitFull
